@@ -3,7 +3,8 @@
 examples of the manual (/repo/documentation/chapters/*.md)."""
 import os, re
 
-REPO = '/repo'
+import vlib
+REPO = vlib.REPO
 
 def rust_unescape(s):
     out = []
